@@ -67,6 +67,7 @@ TChain(sh, p1, p2, ch, togOut, togExtra) ==
                      IF i = 1 THEN TNode(<<"in", 0>>, p1)
                      ELSE IF i <= k + 1 THEN ChainNode(ch[i - 1], NR(i - 1))
                      ELSE IF i = t2 THEN TNode(lastRef, p2)
+                     ELSE IF togExtra >= 3 THEN [op |-> "Capture", ins |-> <<NR(1)>>, depth |-> togExtra - 2]
                      ELSE [op |-> "Neg", ins |-> <<extraSrc>>]],
         ins |-> In1(sh),
         consts |-> [c \in {"s", "v", "w", "o"} |->
@@ -77,8 +78,12 @@ TChain(sh, p1, p2, ch, togOut, togExtra) ==
                  \o (IF togOut = 1 THEN <<NR(1)>> ELSE IF togOut = 2 /\ k >= 1 THEN <<lastRef>> ELSE <<>>)
                  \o (IF togExtra > 0 THEN <<NR(n)>> ELSE <<>>)]
 
+\* te = 3 / 4: the Transpose output is also read from inside an If body nested 1 / 2 levels deep (a CAPTURED value:
+\* the If node is a consumer although the value is not among its inputs)
 TChains == {TChain(sh, pp[1], pp[2], ch, to, te) :
               sh \in Shapes3, pp \in PermPairs, ch \in Chains, to \in 0..2, te \in 0..2}
+           \cup {TChain(sh, pp[1], pp[2], ch, 0, te) :
+              sh \in {<<2, 2, 3>>}, pp \in PermPairs, ch \in {<<>>, <<[op |-> "Relu", side |-> "none"]>>}, te \in 3..4}
 
 ---------------------------------------------------------------------------
 (* T1 -> ReduceMean -> T2 *)
@@ -141,7 +146,8 @@ RChains == {<<a>> : a \in RChainOps} \cup {<<a, b>> : a \in RChainOps, b \in RCh
 RChain(sh, mid, ch, follow, togOut) ==
     LET k == Len(ch)
         back == k + 2
-        n == IF follow THEN k + 4 ELSE k + 3
+        cap == IF togOut >= 2 THEN togOut - 1 ELSE 0              \* togOut = 2 / 3: first Reshape captured at depth 1 / 2
+        n == (IF follow THEN k + 4 ELSE k + 3) + (IF cap > 0 THEN 1 ELSE 0)
         TokS(q) == [i \in 1..Len(q) |-> Tok(q[i])]
     IN [kind |-> "rchain", par |-> [k |-> k, follow |-> follow, to |-> togOut],
         nodes |-> [i \in 1..n |->
@@ -149,12 +155,13 @@ RChain(sh, mid, ch, follow, togOut) ==
                      ELSE IF i <= k + 1 THEN [op |-> ch[i - 1], ins |-> <<NR(i - 1)>>]
                      ELSE IF i = back THEN RNode(NR(k + 1), sh, TokS(sh), TokS(mid), TRUE)
                      ELSE IF follow /\ i = back + 1 THEN RNode(NR(back), mid, TokS(mid), TokS(sh), TRUE)
+                     ELSE IF cap > 0 /\ i = n THEN [op |-> "Capture", ins |-> <<NR(1)>>, depth |-> cap]
                      ELSE [op |-> "Relu", ins |-> <<NR(i - 1)>>]],
         ins |-> In1(sh), consts |-> NoConsts,
-        outs |-> <<NR(n)>> \o (IF togOut = 1 THEN <<NR(k + 1)>> ELSE <<>>)]
+        outs |-> <<NR(IF cap > 0 THEN n - 1 ELSE n)>> \o (IF togOut = 1 THEN <<NR(k + 1)>> ELSE <<>>) \o (IF cap > 0 THEN <<NR(n)>> ELSE <<>>)]
 RChainSet == {RChain(sm[1], sm[2], ch, fo, to) :
                 sm \in {<<<<2, 3, 4>>, <<6, 4>>>>, <<<<2, 3, 4>>, <<2, 12>>>>, <<<<2, 3>>, <<6>>>>},
-                ch \in RChains, fo \in BOOLEAN, to \in 0..1}
+                ch \in RChains, fo \in BOOLEAN, to \in 0..3}
 
 IdReshape(b, n, sym, same) ==
     LET srcmeta == IF sym THEN <<"B", Tok(n)>> ELSE <<Tok(b), Tok(n)>>
